@@ -373,6 +373,11 @@ def extract():
         "Stmts::write": (AST, r"impl\s+WriteSource\s+for\s+Vec<pr::Stmt>\s*"),
         # the entry point: fmt_prog is Vec<Stmt>::write at WriteOpt::default(), nothing applied afterwards (seed C14/5)
         "pl_to_prql": (LIB, r"pub\s+fn\s+pl_to_prql\s*\("),
+        # line breaking (compared through the stream corr-wrapped-tokens; not modelled)
+        "break_line_within_parenthesis": (AST, r"fn\s+break_line_within_parenthesis\s*<"),
+        "SeparatedExprs::write": (CGM, r"impl<T:\s*WriteSource>\s+WriteSource\s+for\s+SeparatedExprs<'_,\s*T>\s*"),
+        "SeparatedExprs::write_inline": (CGM, r"impl<T:\s*WriteSource>\s+SeparatedExprs<'_,\s*T>\s*"),
+        "WriteSource": (CGM, r"pub\s+trait\s+WriteSource\s*"),
         # type expressions (Model/FmtTy.v)
         "Ty::write": (CTY, r"impl\s+WriteSource\s+for\s+pr::Ty\s*"),
         "TyKind::write": (CTY, r"impl\s+WriteSource\s+for\s+pr::TyKind\s*"),
@@ -444,6 +449,10 @@ PINNED = {
     "Stmt::write": "a9bd15b8ac448f64",
     "Stmts::write": "7a037f3d9fa22f69",
     "pl_to_prql": "e9c07143ffe47145",
+    "break_line_within_parenthesis": "931cc9dcbdd54a1d",
+    "SeparatedExprs::write": "61c9fc8c5df4c642",
+    "SeparatedExprs::write_inline": "4ab0632dd1848ec9",
+    "WriteSource": "662146f7638e7945",
     "Ty::write": "c6f1432756e3cfd9",
     "TyKind::write": "e3452067c4af7f10",
     "TyTupleField::write": "3d2a40bd363ba4d4",
